@@ -20,6 +20,7 @@ EXPLANATION = (
     " (R7) few-values variant: the number of value slots is counted on the first solution over the slot edges (not on the published graph), the published error is recomputed from the corrected values of the non-ignored edges (not read from error variables), and solve() re-installs the minimum-error model when the few-values model is installed; (R8) the numpy-scalar bound w_max*|E| reaches the variables (C12.R7). "
     ' (R7, round 3) the variable bound and the recomputed error are computed on Python numbers; scaling factors are float()-converted.'
     ' (R7, hunt 4) error variables are integer only for integral weights; epsilon and lambda are stored as Python floats.'
+    ' (R8, hunt 6) w_max - the bound of every variable and the big-M of the few-flow-values model - runs over non-ignored elements only.'
 )
 DECIDED = ["formulation (conservation, absolute deviation, non-negativity, objective, epsilon budget)", "corrected graph is a copy with only flow values changed",
            "no stale cached solution"]
